@@ -151,28 +151,36 @@ type DriverFunc func(e *hx.Env, lines []string) ([]string, error)
 func CoreDriver(e *hx.Env, lines []string) ([]string, error) { return e.RunDriver("plugin", lines) }
 
 func compareAll(e *hx.Env, ts []*plugin.Transcript, drv DriverFunc) ([]*hx.Disagreement, error) {
-	var lines []string
-	for _, t := range ts {
-		lines = append(lines, t.Lines...)
-	}
-	out, err := drv(e, lines)
-	if err != nil {
-		return nil, err
-	}
 	ds := make([]*hx.Disagreement, len(ts))
-	off := 0
-	for k, t := range ts {
-		for i := range t.Lines {
-			if !agree(t.Impl[i], out[off+i]) {
-				where := opKind(t.Lines[i])
-				if t.Lines[i] == "dump" && i > 0 {
-					where = "state-after:" + opKind(t.Lines[i-1])
-				}
-				ds[k] = &hx.Disagreement{Where: where, Index: i, Impl: t.Impl[i], Model: out[off+i]}
-				break
-			}
+	// one driver run per chunk of transcripts (every transcript starts with `init`, which resets the model)
+	const chunk = 1500
+	for lo := 0; lo < len(ts); lo += chunk {
+		hi := lo + chunk
+		if hi > len(ts) {
+			hi = len(ts)
 		}
-		off += len(t.Lines)
+		var lines []string
+		for _, t := range ts[lo:hi] {
+			lines = append(lines, t.Lines...)
+		}
+		out, err := drv(e, lines)
+		if err != nil {
+			return nil, err
+		}
+		off := 0
+		for k, t := range ts[lo:hi] {
+			for i := range t.Lines {
+				if !agree(t.Impl[i], out[off+i]) {
+					where := opKind(t.Lines[i])
+					if t.Lines[i] == "dump" && i > 0 {
+						where = "state-after:" + opKind(t.Lines[i-1])
+					}
+					ds[lo+k] = &hx.Disagreement{Where: where, Index: i, Impl: t.Impl[i], Model: out[off+i]}
+					break
+				}
+			}
+			off += len(t.Lines)
+		}
 	}
 	return ds, nil
 }
